@@ -40,7 +40,7 @@ class UnitsDB(object):
             return self.prefixes[name[:1]]*self.db[name[1:]]
         # Try with double letter prefix (just 'da'):
         if name[2:] in self.db and name[:2] in self.prefixes:
-            return self.prefixes[name[1:]]*self.db[name[2:]]
+            return self.prefixes[name[:2]]*self.db[name[2:]]
         # Raise error.
         raise UnitsParseError('Unknown units: %r' % name)
 
